@@ -24,7 +24,7 @@ def apply_unified_diff(sources, diff_text):
     out = dict(sources)
     files = re.split(r"^diff --git .*$", diff_text, flags=re.M)
     for chunk in files:
-        m = re.search(r"^\+\+\+ b/(\S+)", chunk, flags=re.M)
+        m = re.search(r"^\+\+\+ [ab]/(\S+)", chunk, flags=re.M)
         if not m:
             continue
         path = m.group(1)
